@@ -23,7 +23,7 @@ from automata.fa.nfa import NFA
 
 from harness import gen
 from harness import nfaops_lib as L
-from harness.common import Ctx, Names, Toks, call
+from harness.common import Ctx, Names, Toks, call, guarded
 
 LEVEL = "proof"
 RULE = ("cases = ordered pairs of valid NFAs; bounded-exhaustive small pairs, then pairs built from a shaped "
@@ -568,6 +568,10 @@ def run(ctx: Ctx):
         check_pair(ctx, A, A, "same_object", both_orders=False)
     for A, B in empty_alphabet_pairs(rng, ctx.budget(40, 800)):
         check_pair(ctx, A, B, "empty_alphabet")
+    # 2d. one long-lived NFA against a stream of temporaries
+    for _ in range(ctx.budget(12, 200)):
+        anchor = gen.rand_nfa(rng, 5, alphabet=rng.choice(gen.ALPHABETS[:4]), min_states=2)
+        run_anchor_stream(ctx, anchor, ctx.budget(60, 150))
     # 3. independent random pairs (same and different alphabets)
     for _ in range(ctx.budget(800, 20000)):
         alpha = rng.choice(gen.ALPHABETS[:5])
@@ -625,10 +629,64 @@ def search(ctx: Ctx):
             return
 
 
+def _stream_verdicts(anchor: NFA, T: NFA):
+    """(what the real code says, what the languages say) for anchor == T and T == anchor."""
+    verdict, w = L.distinguish(L.raw_of(anchor), L.raw_of(T), anchor.input_symbols, budget=20000)
+    if verdict == "budget":
+        return None
+    if verdict != "equal" and anchor.accepts_input(w) == T.accepts_input(w):
+        return None
+    return (call(lambda: anchor == T), call(lambda: T == anchor), call(lambda: anchor != T)), verdict == "equal", w
+
+
+@guarded
+def run_anchor_stream(ctx: Ctx, anchor: NFA, n_temps: int, temp_reprs=None):
+    """ONE long-lived NFA compared with a stream of temporaries that are built, compared and dropped
+    (so that later temporaries reuse the memory of earlier ones): the answer must depend on the two
+    languages only, not on what the long-lived object was compared with before.  A failure is
+    reported with the whole stream up to the failing temporary as replay (`temp_reprs` = replaying)."""
+    rng = ctx.rng
+    env = {"NFA": NFA, "frozenset": frozenset}
+    alpha = sorted(anchor.input_symbols)
+    seen = []
+    for i in range(n_temps if temp_reprs is None else len(temp_reprs)):
+        if temp_reprs is not None:
+            T = eval(temp_reprs[i], env)
+        elif rng.random() < 0.3:
+            T = call(lambda: rng.choice(REWRITES)(rng, anchor))
+            T = T[1] if T[0] == "ok" and T[1] is not None else gen.rand_nfa(rng, 4, alphabet=alpha)
+        else:
+            T = gen.rand_nfa(rng, 4, alphabet=alpha)
+        seen.append(repr(T))
+        r = _stream_verdicts(anchor, T)
+        ctx.case(("stream", repr(anchor), seen[-1]) if len(anchor.states) >= 2 and len(T.states) >= 2 else None)
+        ctx.stat("anchor_vs_temporary")
+        if r is not None:
+            (eq, qe, ne), equal, w = r
+            ctx.stat("anchor_vs_temporary_" + ("equal" if equal else "differ"))
+            want = ("ok", equal)
+            if eq != want or qe != want or ne != ("ok", not equal):
+                ctx.prop_fail(f"NFA == after {i} earlier comparisons of the same long-lived NFA with temporaries that "
+                              f"were dropped: anchor == T is {eq}, T == anchor is {qe}, anchor != T is {ne}, but the "
+                              f"languages are {'equal' if equal else 'different'}"
+                              + ("" if equal else f" (word {w!r})"),
+                              dict(kind="anchor_stream", anchor=repr(anchor), temporaries=list(seen)), None)
+                return
+        del T
+
+
 def replay(ctx: Ctx, path: str) -> int:
     data = json.load(open(path))
     rp = data.get("replay", data)
     env = {"NFA": NFA, "frozenset": frozenset}
+    if rp.get("kind") == "anchor_stream":
+        run_anchor_stream(ctx, eval(rp["anchor"], env), 0, temp_reprs=rp["temporaries"])
+        if ctx.prop_fails:
+            print(f"VIOLATION property=C09 replay={path}")
+            print("  " + ctx.prop_fails[0]["what"])
+            return 1
+        print("replay: property holds on this history now")
+        return 0
     A = eval(rp["A"], env)
     B = eval(rp["B"], env)
     check_pair(ctx, A, B, "replay")
